@@ -842,6 +842,7 @@ func (lc *leaderController) write(ctx context.Context, requestSupplier func(offs
 	tracker := lc.quorumAckTracker
 	term := lc.term
 	lc.Unlock()
+	verifWriteGate(lc.shardId, newOffset)
 	request := requestSupplier(newOffset)
 
 	lc.log.Debug("Append operation", slog.Any("req", request))
